@@ -2,6 +2,7 @@ package props
 
 import (
 	"fmt"
+	"strconv"
 	"math/big"
 	"strings"
 
@@ -50,7 +51,42 @@ func findIntegrator(p *an.Program) *ssa.Function {
 			return fn
 		}
 	}
-	return nil
+	// the recent-list bookkeeping may live in a helper of the integrator: then the integrator is the (one)
+	// non-construction function that stores into report slots
+	ctor := p.Constructor("server", "GCAServer")
+	construction := p.ConstructionPhase("server", ctor)
+	var cand *ssa.Function
+	for _, fn := range p.FuncsIn("server") {
+		if construction[fn] {
+			continue
+		}
+		for _, a := range p.AccessesOf(fn) {
+			if _, isStore := a.Instr.(*ssa.Store); !isStore || !a.Write {
+				continue
+			}
+			if f, ok := a.Cls.FieldOf("GCAServer"); ok && f == "equipmentReports" && len(a.Cls.Path) >= 3 {
+				if cand != nil && cand != fn {
+					return nil
+				}
+				cand = fn
+			}
+		}
+	}
+	return cand
+}
+
+// calledOnlyFrom: fn is a helper all of whose call sites are in caller.
+func calledOnlyFrom(p *an.Program, fn, caller *ssa.Function) bool {
+	sites := p.CallSites(fn)
+	if len(sites) == 0 {
+		return false
+	}
+	for _, s := range sites {
+		if s.Parent() != caller {
+			return false
+		}
+	}
+	return true
 }
 
 // verifyFacts lists the arguments of the glow.Verify calls known to be true.
@@ -118,7 +154,7 @@ func runC01(c *an.Ctx) {
 				}
 			case f == "recentReports":
 				nw++
-				c.Check(fn == integ, "WHO-MAY", fn, a.Instr.Pos(), an.KeyOf(fn, "recent-write:"+a.What), "the recent-report list is written only by the report integrator", "writer "+an.FuncName(fn))
+				c.Check(fn == integ || calledOnlyFrom(p, fn, integ), "WHO-MAY", fn, a.Instr.Pos(), an.KeyOf(fn, "recent-write:"+a.What), "the recent-report list is written only by the report integrator (or a helper only it calls)", "writer "+an.FuncName(fn))
 			}
 		}
 		// writers of equipment-reports.dat
@@ -438,56 +474,30 @@ func parserLayout(c *an.Ctx) {
 		c.Undecided("CODEC", nil, 0, "report-parser", "server-side report parser not found", "anchor missing")
 		return
 	}
-	fi := p.Info(parser)
+	// what the parser reads from the raw bytes (directly, or through the decoder of the report type it delegates to)
 	want := map[string]string{"ShortID": "Uint32:0:4", "Timeslot": "Uint32:4:8", "PowerOutput": "Uint64:8:16"}
 	got := map[string]string{}
-	for _, b := range parser.Blocks {
-		for _, in := range b.Instrs {
-			st, ok := in.(*ssa.Store)
-			if !ok {
-				continue
+	sigOK := false
+	for _, e := range p.CodecEvents(parser) {
+		if e.Op != "R" || !strings.HasPrefix(e.Off, "#") {
+			continue
+		}
+		lo, err := strconv.Atoi(e.Off[1:])
+		if err != nil {
+			continue
+		}
+		switch {
+		case e.Order != "":
+			got[e.Field] = fmt.Sprintf("Uint%d:%d:%d", 8*e.Width, lo, lo+e.Width)
+			if e.Order != "LE" {
+				got[e.Field] += ":" + e.Order
 			}
-			fa, ok := st.Addr.(*ssa.FieldAddr)
-			if !ok || namedOfPtr(fa.X.Type()) != "EquipmentReport" {
-				continue
-			}
-			vt := fi.Term(st.Val)
-			if vt.K == an.KPure && strings.HasPrefix(vt.Callee(), "(encoding/binary.") && len(vt.A) == 2 && vt.A[1].K == an.KSlice {
-				order := "BE"
-				if strings.Contains(vt.Callee(), "littleEndian") {
-					order = "LE"
-				}
-				lo, _ := vt.A[1].A[1].IsConst()
-				hi, _ := vt.A[1].A[2].IsConst()
-				m := vt.Callee()[strings.LastIndex(vt.Callee(), ".")+1:]
-				got[fieldNameOf(fa)] = m + ":" + lo + ":" + hi
-				if order != "LE" {
-					got[fieldNameOf(fa)] += ":BE"
-				}
-			}
+		case e.Field == "Signature" && e.Width == 64 && lo == 16:
+			sigOK = true
 		}
 	}
 	for f, w := range want {
 		c.Check(got[f] == w, "CODEC", parser, parser.Pos(), an.KeyOf(parser, "decode:"+f), "the report parser decodes "+f+" as little-endian "+w, "found "+got[f])
-	}
-	// signature copied from raw[16:]
-	sigOK := false
-	for _, b := range parser.Blocks {
-		for _, in := range b.Instrs {
-			call, ok := in.(*ssa.Call)
-			if !ok {
-				continue
-			}
-			if bi, ok := call.Call.Value.(*ssa.Builtin); ok && bi.Name() == "copy" {
-				src := fi.Term(call.Call.Args[1])
-				if src.K == an.KSlice && isConstTerm(src.A[1], "16") {
-					dcls := fi.RefClass(call.Call.Args[0])
-					if strings.Contains(dcls.String(), "Signature") {
-						sigOK = true
-					}
-				}
-			}
-		}
 	}
 	c.Check(sigOK, "CODEC", parser, parser.Pos(), an.KeyOf(parser, "decode:Signature"), "the report parser takes the signature from bytes 16..80", "copy(report.Signature[:], raw[16:])")
 	c.Count("CODEC", 4)
